@@ -22,7 +22,11 @@ Lemma u8_inj a b : (a < 256)%N -> (b < 256)%N -> u8 a = u8 b -> a = b.
 Proof. intros Ha Hb H. rewrite <- (N_u8 a Ha), <- (N_u8 b Hb), H. reflexivity. Qed.
 
 Lemma new_wallet_ver pk v o w : new_wallet pk v o = Ok w -> w_ver w = v /\ w_pk w = pk.
-Proof. unfold new_wallet. destruct v; intros [= <-]; auto. Qed.
+Proof.
+  unfold new_wallet. destruct v; intros H; try discriminate H;
+    apply (f_equal (fun r => match r with Ok x => (w_ver x, w_pk x) | _ => (w_ver w, w_pk w) end)) in H;
+    cbn [w_ver w_pk] in H; injection H as <- <-; auto.
+Qed.
 
 Lemma pk_bits_len w : length (pk_bits w) = 256%nat.
 Proof. apply fit_len. Qed.
@@ -35,11 +39,10 @@ Qed.
 Lemma int32_of_mod256 z : (int32_of z mod 256 = z mod 256)%Z.
 Proof.
   unfold int32_of.
+  pose proof (Z.div_mod (z + 2147483648) 4294967296 ltac:(lia)) as D.
   replace ((z + 2147483648) mod 4294967296 - 2147483648)%Z
-    with ((z + 2147483648) mod (256 * 16777216) + (-8388608) * 256)%Z by lia.
-  rewrite Z.mod_add by lia. rewrite Z.rem_mul_r by lia.
-  rewrite Z.mul_comm, Z.mod_add by lia. rewrite Z.mod_mod by lia.
-  replace (z + 2147483648)%Z with (z + 8388608 * 256)%Z by lia. apply Z.mod_add. lia.
+    with (z + (- ((z + 2147483648) / 4294967296) * 16777216) * 256)%Z by lia.
+  apply Z.mod_add. lia.
 Qed.
 
 Definition has_data (v : version) : Prop :=
@@ -250,15 +253,14 @@ Proof. intros E. unfold next_params. rewrite E. reflexivity. Qed.
 
 (* the seqno read back from data of the wallet's own layout (any ids and key,
    empty dictionaries) is the stored one *)
-Theorem seqno_of_own_data v s (a b : N) (pk : bits) (flag : bool) (wid80 : bits) :
+Theorem seqno_of_own_data s (a b : N) (pk : bits) (flag : bool) (wid80 : bits) :
   (s < 4294967296)%N -> length pk = 256%nat -> length wid80 = 80%nat ->
   seqno_of_data V3R1 (ocell (u32 s ++ u32 a ++ pk) []) = Ok s /\
   seqno_of_data V3R2 (ocell (u32 s ++ u32 a ++ pk) []) = Ok s /\
   seqno_of_data V4R1 (ocell (u32 s ++ u32 a ++ pk ++ [false]) []) = Ok s /\
   seqno_of_data V4R2 (ocell (u32 s ++ u32 a ++ pk ++ [false]) []) = Ok s /\
   seqno_of_data V5Beta (ocell (bits_of 33 s ++ wid80 ++ pk ++ [false]) []) = Ok s /\
-  seqno_of_data V5R1 (ocell ([flag] ++ u32 s ++ u32 b ++ pk ++ [false]) []) = Ok s /\
-  (v = v).
+  seqno_of_data V5R1 (ocell ([flag] ++ u32 s ++ u32 b ++ pk ++ [false]) []) = Ok s.
 Proof.
   intros Hs Hpk Hw. unfold seqno_of_data, hashmap_e_ok. cbn [cdata crefs ocell].
   repeat split.
@@ -408,8 +410,6 @@ Proof.
                      Ok (mkext (Z.to_N (w_wc w mod 256)) (bytes_to_bits h) init body))).
     { unfold raw_send_msg in Er. destruct (max_messages (w_ver w) <? length ms)%nat; [discriminate|].
       apply bind_ok in Er. destruct Er as (body & Hb & Er). exists body. split; [exact Hb|]. intros Hi.
-      assert (Er' : raw_send_msg SK chash sign w sk wc (bytes_to_bits h) seqno valid ms init rnd = Ok (hh, e'))
-        by exact (eq_trans (eq_sym eq_refl) ltac:(unfold raw_send_msg; fail)) || idtac.
       apply bind_ok in Er. destruct Er as (e2 & He & Er). apply bind_ok in Er. destruct Er as (h2 & Hh2 & Er).
       injection Er as <- <-.
       rewrite (parse_ext_msg chash wc (bytes_to_bits h) init body e2 h2 Hl Hi He Hh2).
